@@ -769,6 +769,15 @@ def reject(F, R, cg):
             if t['k'] == 'switch' and len(t['targets']) >= 2:
                 oth = b.reachable(t['otherwise'], avoid=[x for _, x in t['targets']])
                 ok = any(x in oth for x, j, s in agg_sites(b, r'^std::result::Result$', 'Err')) and not any(x in oth for x, j, s in agg_sites(b, r'^std::result::Result$', 'Ok'))
+                if not ok:
+                    # table in an Option-returning helper: `from_wire(v).ok_or(MalformedPacket)` - the fall-through arm yields None
+                    # (and nothing else), and the function's result is that Option turned into a Result by ok_or / ok_or_else
+                    nones = [x for x, j, s in agg_sites(b, r'^std::option::Option$', 'None') if x in oth]
+                    somes = [x for x, j, s in agg_sites(b, r'^std::option::Option$', 'Some') if x in oth]
+                    conv = [xb for xb, xt in b.calls_to(r'Option::<T>::(ok_or|ok_or_else)$')
+                            if any(l[0] == 'agg' and l[1] == 'std::option::Option::None' and l[2] in nones for l in Origin(b).of_operand(xt['args'][0]))
+                            and any(l[0] == 'call' and l[2] == xb for l in Origin(b).of_operand({'mv': {'l': 0, 'p': []}}))]
+                    ok = bool(nones) and not somes and bool(conv) and not any(x in oth for x, j, s in agg_sites(b, r'^std::result::Result$', 'Ok'))
         R.ob('C02.reject', '%s|unknown-value=>Err' % b.path.split(' as ')[0].lstrip('<'), ok, 'the generated TryFrom<u8> accepts values that are not discriminants')
     R.floor('C02.reject', 'prim_enum TryFrom impls', n, 9)
 
